@@ -123,7 +123,8 @@ namespace awkward {
   void
   GrowableBuffer<T>::append(T datum) {
     if (length_ == reserved_) {
-      set_reserved((int64_t)ceil(reserved_ * options_.resize()));
+      int64_t grown = (int64_t)ceil(reserved_ * options_.resize());
+      set_reserved(grown > reserved_ ? grown : reserved_ + 1);
     }
     ptr_.get()[length_] = datum;
     length_++;
